@@ -332,6 +332,52 @@ theorem dm_lookup_refuses_iff (T : List SymbolInfo) (n : Nat) (shape : Shape) (m
     rw [Bool.and_eq_true, decide_eq_true_eq] at hp
     exact hall s hmem hp.1 hp.2
 
+/-- looking the capacity of the found symbol up again (same filters) finds the same symbol: earlier
+    admissible rows were too small for `n`, hence too small for the capacity -/
+theorem dm_lookup_idempotent (T : List SymbolInfo) (n : Nat) (shape : Shape) (minSize maxSize : Option (Nat × Nat))
+    (s : SymbolInfo) (h : lookupLoop n shape minSize maxSize T = some s) :
+    lookupLoop s.dataCapacity shape minSize maxSize T = some s := by
+  rw [dm_lookup_first_fit] at h ⊢
+  induction T with
+  | nil => cases h
+  | cons a rest ih =>
+    rw [List.find?_cons] at h ⊢
+    cases hp : (admissible shape minSize maxSize a && decide (n ≤ a.dataCapacity)) with
+    | true =>
+      rw [hp] at h
+      simp only [Option.some.injEq] at h
+      subst h
+      rw [Bool.and_eq_true] at hp
+      simp [hp.1]
+    | false =>
+      rw [hp] at h
+      have hs := List.find?_some h
+      rw [Bool.and_eq_true, decide_eq_true_eq] at hs
+      have : (admissible shape minSize maxSize a && decide (s.dataCapacity ≤ a.dataCapacity)) = false := by
+        cases hadm : admissible shape minSize maxSize a
+        · rfl
+        · rw [hadm, Bool.true_and, decide_eq_false_iff_not] at hp
+          simp only [Bool.true_and, decide_eq_false_iff_not]
+          omega
+      rw [this]
+      exact ih h
+
+/-- `dm_writer_symbol`: the symbol the Data Matrix WRITER renders (second lookup on the padded
+    codewords, with the same shape and size constraints) is the first admissible symbol for the
+    message's codeword count, in table order; the writer refuses exactly when none is admissible,
+    and its ignored second-lookup error can never hide a nil symbol -/
+theorem dm_writer_symbol (T : List SymbolInfo) (k : Nat) (shape : Shape) (minSize maxSize : Option (Nat × Nat)) :
+    writerSymbol T k shape minSize maxSize =
+      match lookupLoop k shape minSize maxSize T with
+      | some s => .ok s
+      | none => .error .writer := by
+  unfold writerSymbol symbolLookup
+  cases h : lookupLoop k shape minSize maxSize T with
+  | none => rfl
+  | some s =>
+    simp only [bind, Except.bind, pure, Except.pure]
+    rw [dm_lookup_idempotent T k shape minSize maxSize s h]
+
 /-- `dm_max_1558`: beyond the largest capacity of the table nothing is found -/
 theorem dm_max (T : List SymbolInfo) (cap : Nat) (hmax : T.all (fun s => decide (s.dataCapacity ≤ cap)) = true)
     (n : Nat) (hn : cap < n) (shape : Shape) (minSize maxSize : Option (Nat × Nat)) :
